@@ -189,7 +189,7 @@ def prefix_events(gid, toks_list, flen):
             if r.startswith("e"):
                 bad_msg = r.endswith("!")
                 code = int(r[1:].rstrip("!"))
-                v.append(9003 if bad_msg else code)
+                v.append(0 if code == 0 else 9003 if bad_msg else code)
                 hist[code] = hist.get(code, 0) + 1
             elif r.startswith("o"):
                 rows, nrg, ncol = r[1:].split("/")
@@ -561,7 +561,7 @@ def _run(chk, tier, replay, binary, fdir, extra_paths):
         raise common.InfraError("C18 machinery: %s" % json.dumps(infra[:3])[:1500])
     def prio(v):            # representative case per signature: full device first, then path writers
         lab = v.get("run", "")
-        return (0 if "devfull" in lab else 1 if " p/" in lab else 2, v.get("id", ""), v.get("l", 0))
+        return (0 if "devfull" in lab else 1 if "r0 " in lab else 2 if " p/" in lab else 3, v.get("id", ""), v.get("l", 0))
     alarms = {}
     for v in sorted(verdicts, key=prio):
         ops, codec, page = meta.get(v["id"], (None, None, None))
